@@ -231,4 +231,51 @@ func C03(r *h.Run) {
 			check("client_split", cfg, body, whole, got, chunks, fin, what)
 		}
 	}
+	// 5. a read limit, a last message beyond it, and the call's status (ok or an error)
+	// in the terminator / trailers: the client's outcome must not depend on whether the
+	// transport reports io.EOF together with the last bytes or on a separate read
+	for i := 0; i < r.N(36, 240); i++ {
+		cfg := envCfg{Proto: []string{"grpc", "grpcweb", "connect"}[i%3], Max: 16}
+		var frames []byte
+		for k := rng.Intn(3); k > 0; k-- {
+			frames = append(frames, h.Frame(0, genPayload(rng, rng.Intn(12)))...)
+		}
+		frames = append(frames, h.Frame(0, genPayload(rng, 17+rng.Intn(40)))...)
+		v := verdict{Kind: "ok"}
+		if i%2 == 0 {
+			v = verdict{Kind: "err", Code: connect.Code(1 + rng.Intn(16))}
+		}
+		hdr, _, _ := responseParts(cfg)
+		term, trailer := terminatorFor(cfg, v)
+		body := append(append([]byte(nil), frames...), term...)
+		whole, p := clientStreamRecv(cfg, 200, hdr, h.NewChunkBody([][]byte{body}, h.FinCleanEOF), trailer)
+		r.Eval("client_limit_whole", fmt.Sprintf("%v|%x|%v", cfg, body, v))
+		if p != nil {
+			r.Fail(h.Failure{Key: "client/panic", Family: "client_limit_whole", What: fmt.Sprint("panic: ", p), Input: map[string]any{"cfg": cfg, "body_hex": h.Hex(body)}})
+			continue
+		}
+		r.Sample("client_limit_whole", map[string]any{"cfg": cfg, "body_hex": h.Hex(body), "status": v, "observed": obsStrings(whole)})
+		variants := [][][]byte{{body}, h.OneByteChunks(body)}
+		for k := 0; k < 4; k++ {
+			variants = append(variants, h.SplitAt(body, []int{1 + rng.Intn(len(body)-1)}))
+		}
+		if len(term) > 0 {
+			variants = append(variants, h.SplitAt(body, []int{len(frames)})) // exactly before the terminator
+		}
+		for _, chunks := range variants {
+			for _, fin := range []h.FinKind{h.FinCleanEOF, h.FinEOFWithData} {
+				got, p := clientStreamRecv(cfg, 200, hdr, h.NewChunkBody(chunks, fin), trailer)
+				r.Eval("client_limit_split", fmt.Sprintf("%v|%x|%v|%d|%v", cfg, body, chunkSizes(chunks), fin, v))
+				if p != nil {
+					r.Fail(h.Failure{Key: "client/panic", Family: "client_limit_split", What: fmt.Sprint("panic: ", p), Input: map[string]any{"cfg": cfg, "body_hex": h.Hex(body)}})
+					continue
+				}
+				if !obsEqual(whole, got) {
+					r.Fail(h.Failure{Key: "segmentation/client-outcome-differs", Family: "client_limit_split", What: "outcome under fragmentation / EOF placement differs from the outcome of the same bytes in one piece (last message beyond the read limit)",
+						Input: map[string]any{"cfg": cfg, "body_hex": h.Hex(body), "status": v, "chunk_sizes": chunkSizes(chunks), "fin": fin.Coq()}, Expected: obsStrings(whole), Actual: obsStrings(got)})
+				}
+			}
+		}
+	}
+
 }
